@@ -19,7 +19,7 @@ uint64_t vp_in_u64(void);
 /* reachability witness: MUST come back violated, otherwise the harness is vacuous */
 #define REACH(m) __CPROVER_assert(0, "witness: " m)
 /* p is the base of a live heap object of exactly n bytes */
-#define VP_HEAP_EXACT(p, n) (__CPROVER_DYNAMIC_OBJECT(p) && __CPROVER_POINTER_OFFSET(p) == 0 && __CPROVER_OBJECT_SIZE(p) == (n) && __CPROVER_r_ok((p), (n)))
+#define VP_HEAP_EXACT(p, n) (__CPROVER_DYNAMIC_OBJECT(p) && __CPROVER_POINTER_OFFSET(p) == VP_HDR && VP_LOGICAL_SIZE(p) == (uint64_t)(n) && __CPROVER_r_ok((p), 1))
 #define VP_READABLE(p, n) __CPROVER_r_ok((p), (n))
 #define VP_SAME_OBJECT(p, q) __CPROVER_same_object((p), (q))
 #define VP_OBS(x) ((void)0)
@@ -46,8 +46,10 @@ void vpx__ZdaPv(uint8_t *p);
 
 /* exactly-sized input object: any read past it is a bounds violation (CBMC) / ASan report (native) */
 static inline void *vp_exact(uint64_t bytes) {
-  void *p = malloc(bytes ? bytes : 1);
+  void *p = vp_heap_alloc(bytes);
+#ifndef __CPROVER__
   ASSUME(p != 0);
+#endif
   return p;
 }
 
